@@ -743,9 +743,45 @@ def decide(root, pid, tier, seed, replay=None):
                 explore(root, pid, res, gen_text(root, (seed + 7919 * (extra + 1)) * 1000 + pi, 3000, prof, 10 ** 6 * (extra + 1)), 'search%d_%s' % (extra, prof), stats)
             if res.violations:
                 break
+    # ---- still nothing concrete: the same inputs through an UNOPTIMISED build of the runner (debug assertions and
+    #      overflow checks on) — a change may misbehave only there
+    failed_obl = [o for o in res.obligations if not o[1]]
+    if (stats['disagreements'] or failed_obl) and not res.violations and not replay and pid in PROPS and st['harness']['ok']:
+        dev_search(root, pid, res, seed, stats)
     finish_without_search(root, pid, res, stats)
     res.stats = stats
     return res, st
+
+def dev_search(root, pid, res, seed, stats):
+    tgt = os.path.join(root, '.cache', 'harness-target-default-dev')
+    rc, out = sh(['cargo', 'build', '--offline', '--target-dir', tgt, '--bin', 'runner'], 1500, cwd=harness_dir(root),
+                 env={'RUSTFLAGS': '--cfg lean_string_verif'})
+    rn = os.path.join(tgt, 'debug', 'runner')
+    if rc != 0 or not os.path.exists(rn):
+        return
+    cfg = PROPS[pid]
+    txt = corpus_text(root)
+    for pi, prof in enumerate(cfg['profiles']):
+        txt += gen_text(root, seed * 1000 + pi, 1500, prof, 7 * 10 ** 6 + pi * 10 ** 5)
+    cases, order = split_cases(txt)
+    cf = os.path.join(root, '.cache', 'tmp', 'dev_%d.cases' % os.getpid())
+    os.makedirs(os.path.dirname(cf), exist_ok=True)
+    open(cf, 'w').write(txt)
+    rc, itxt = sh([rn, cf], 1800)
+    os.remove(cf)
+    isteps, iends, mons = parse_trace(itxt)
+    seen = set(); opcache = {}
+    for (cid, step, name, props, detail) in mons:
+        if cid in cases and cid not in opcache:
+            opcache[cid] = case_ops(cases[cid])
+        props = attributed(pid, cid, step, name, props, opcache.get(cid, []), isteps)
+        if pid in props and cid not in seen:
+            seen.add(cid)
+            stats['monitor_failures'] += 1
+            if len(res.violations) < 5:
+                rp = write_replay(root, pid, 'dev_%s' % cid, '# unoptimised build of the runner (cargo build without --release)\n' + cases.get(cid, ''))
+                res.violations.append(('unoptimised build: monitor %s at case %s step %d: %s' % (name, cid, step, detail[:160]), rp, True, name))
+    res.cov['dev_build_search_cases'] = len(order)
 
 def emit(root, res, st):
     pid = res.pid
